@@ -750,7 +750,10 @@ impl Property for C14 {
                 o_st.compress = vec![false; 8];
                 o_st.with_keyb = false;
                 o_st.with_mouse = false;
+                // (what the writers left in the hold-INT byte is their business: the three files still describe one state)
+                o_st.hold_int = orng.u8();
                 let mut o_z = o_st.clone();
+                o_z.hold_int = orng.u8();
                 o_z.compress = vec![true; 8];
                 o_z.order_seed = orng.next() | 1;
                 let files = [(0usize, encode(&s, 0, &o_st), "sna"), (1, encode(&s, 1, &o_st), "szx_stored"), (1, encode(&s, 1, &o_z), "szx_zlib")];
